@@ -18,6 +18,7 @@
 //	    JointScalarMultiplication a b s t          s • a + t • b
 //	    MultiExp points scalars cfg                toInt c0 • p0 + (toInt c1 • p1 + (… + 0)); the error result is nil:
 //	                                               the two lengths are known at translation time and must be equal
+//	    Fold points coeff cfg                      MultiExp with the scalars 1, c, c·c, … (multiexp.go G1Jac.Fold; its text is not re-read)
 //	    IsInSubGroup                               PARAMETER isInSubGroup : G → Bool
 //	S:  Neg Add Sub Mul Set SetOne SetZero         ring operations;  BigInt: PARAMETER toInt : S → Int (canonical representative)
 //	    SetRandom                                  per call site a PARAMETER random_i : S and random_i_err : Bool
@@ -1206,7 +1207,9 @@ func (x *gtr) flatten(v *gv, terms *[]string, lens *[]int) {
 	}
 }
 
-func needParens(t string) bool { return strings.ContainsAny(t, " ") && !(strings.HasPrefix(t, "(") && balancedOuter(t)) }
+func needParens(t string) bool {
+	return strings.ContainsAny(t, " ") && !(strings.HasPrefix(t, "(") && balancedOuter(t))
+}
 
 func balancedOuter(t string) bool {
 	d := 0
